@@ -13,6 +13,7 @@ import os, sys, subprocess, hashlib, json, time, glob, shutil, fcntl
 
 VERIF = os.path.dirname(os.path.dirname(os.path.abspath(__file__)))
 REPO = os.environ.get("ARK_REPO", "/repo")
+KEEP_KEYS = 4
 DRIVER = os.path.join(VERIF, "arkfacts", "target", "release", "arkfacts")
 FACTS = os.path.join(VERIF, ".facts")
 CACHE = os.path.join(VERIF, ".cache")
@@ -153,11 +154,11 @@ def extract(units=None, verbose=True):
         status = json.load(open(status_p)) if os.path.exists(status_p) else {}
         todo = [u for u in units if not status.get(u, {}).get("ok")]
         if todo:
-            # keep only the newest key
-            for d in os.listdir(FACTS):
-                p = os.path.join(FACTS, d)
-                if os.path.isdir(p) and d != key:
-                    shutil.rmtree(p, ignore_errors=True)
+            # keep only the few newest keys (a concurrent run on another tree may still be loading its own)
+            olds = sorted((os.path.join(FACTS, d) for d in os.listdir(FACTS) if os.path.isdir(os.path.join(FACTS, d)) and d != key),
+                          key=lambda p: os.path.getmtime(p), reverse=True)
+            for p in olds[KEEP_KEYS - 1:]:
+                shutil.rmtree(p, ignore_errors=True)
             os.makedirs(root, exist_ok=True)
             from concurrent.futures import ThreadPoolExecutor
             with ThreadPoolExecutor(max_workers=len(todo)) as ex:
